@@ -21,7 +21,8 @@ func init() {
 			"R2.2: the polarity of each delta along its chain is negative ('forwarded = source - withheld'): Drop adds +1 per withheld frame to the picture-id delta and -1 per withheld packet to the seqno delta, the map returns them unchanged, and the product of the coefficients with which Write passes them on and the rewriter applies them must make the forwarded number decrease. " +
 			"R2.3: the buffer handed to the rewriter is a pooled copy of exactly the bytes received (never the caller's buffer, which aliases the cached packet), and the rewritten slice written out has the same length. " +
 			"R2.5: the octet that carries the M (15-bit) flag of the picture id is written with values in [128,255] where the flag was set and [0,127] where it was clear (interval proof); the single accumulation of the picture-id shift in Drop precedes every successful return. " +
-			"R2.4: the marker is set only on a frame's last packet of the selected spatial layer when it was not already set.",
+			"R2.4: the marker is set only on a frame's last packet of the selected spatial layer when it was not already set. " +
+			"R2.6: codecs.PacketFlags marks a packet as the start of a frame (the only point where the layer selection, and with it the withholding, may change: C04) only where the payload descriptor says so (VP8: S bit and partition index 0; VP9: B bit), so a frame is withheld or forwarded whole and its packets share one picture-id shift.",
 		NotDecided: []string{
 			"that timestamp and payload equal the publisher's beyond the rewriter's write-set (pion's own header handling is trusted)",
 			"that all packets of one frame carry one id over histories; picture-id arithmetic modulo 7/15 bits beyond the sign",
@@ -38,6 +39,8 @@ func runC02(c *Ctx) {
 	c.Rule("R2.2", "E6", "delta polarity along producer -> carrier -> consumer", 2)
 	c.Rule("R2.3", "E4", "pooled copy before rewriting; same length out", 3)
 	c.Rule("R2.4", "E2", "marker only at the end of a frame of the selected spatial layer", 1)
+	c.Rule("R2.6", "E2", "frames are withheld whole: a packet starts a frame only where its payload descriptor says so (same decision as R4.7)", 4)
+	defer runFrameStartFlags(c, "R2.6")
 	rp := p.Func("codecs", "", "RewritePacket")
 	wr := p.Func("rtpconn", "rtpDownTrack", "Write")
 	dr := p.Func("packetmap", "Map", "Drop")
